@@ -7,6 +7,12 @@ R13.2 identifier matching is exact or anchored (taint from identifier parameters
 R13.3 a completed write retires the not-completed record of the same identifier.
 R13.4 sibling SQL statements of DataStoreSqlite._write persist the same facts.
 R13.5 _check_writable refuses READONLY writes and APPEND overwrites.
+
+Added in build round 2 (see DESIGN.md section 3, round-2 table):
+R13.6 a write that is not refused reaches the storage: in the _write of each store every normal path from entry to exit passes the storage effect (the file ...
+R13.7 within one public write of DataStoreDirectory no helper that unlinks files of a store table (md5, not_completed, log) runs after a helper that wrote ...
+R13.8 DataStoreSqlite keeps two member lists over one table whose rows can change class (the UPDATE branch rewrites is_completed): each public record write ...
+R13.9 one checksum per record: in DataStoreDirectory._write the checksum file's path depends on every parameter the data file's path depends on (the table ...
 """
 
 from __future__ import annotations
